@@ -49,9 +49,9 @@ def ws_cases(draw):
     fam = obj.CONVEX[draw(st.integers(0, 2))]
     coef = draw(obj.coefficients(n, family=fam, cond_exp=(0.0, 5.0)))
     index = [0, 2][draw(st.integers(0, 1))]
-    db = onp.array(draw(st.lists(st.floats(-1, 1), min_size=n, max_size=n))) * coef['scale'] * draw(gen.logfloat(-3, 0))
+    db = onp.array(draw(st.lists(gen.floats(-1, 1), min_size=n, max_size=n))) * coef['scale'] * draw(gen.logfloat(-3, 0))
     nd = len(coef['design'])
-    dd = onp.array(draw(st.lists(st.floats(-0.2, 0.2), min_size=nd, max_size=nd)))
+    dd = onp.array(draw(st.lists(gen.floats(-0.2, 0.2), min_size=nd, max_size=nd)))
     # keep A symmetric: perturb with a symmetric pattern
     A = dd[:n * n].reshape(n, n)
     dd[:n * n] = (0.5 * (A + A.T)).ravel()
@@ -60,7 +60,7 @@ def ws_cases(draw):
     else:
         db = db * 0.0
     at_solution = draw(st.booleans())
-    x = onp.array(draw(st.lists(st.floats(-1, 1), min_size=n, max_size=n)))
+    x = onp.array(draw(st.lists(gen.floats(-1, 1), min_size=n, max_size=n)))
     return {'n': n, 'coef': coef, 'index': index, 'db': db.tolist(), 'dd': dd.tolist(), 'at_solution': at_solution, 'x': x.tolist(),
             'pre': ['exact', 'stale'][draw(st.integers(0, 1))]}
 
@@ -130,9 +130,9 @@ def scaled_cases(draw):
     n = NS[draw(st.integers(0, 2))]
     fam = obj.CONVEX[draw(st.integers(0, 2))]
     coef = draw(obj.coefficients(n, family=fam, cond_exp=(0.0, 3.0)))
-    dscale = [10.0 ** draw(st.floats(-2, 2)) for _ in range(n)]          # badly scaled unknowns: x_i -> x_i / s_i
-    x0 = onp.array(draw(st.lists(st.floats(-1, 1), min_size=n, max_size=n)))
-    db = onp.array(draw(st.lists(st.floats(-1, 1), min_size=n, max_size=n))) * coef['scale'] * draw(gen.logfloat(-2, 0))
+    dscale = [10.0 ** draw(gen.floats(-2, 2)) for _ in range(n)]          # badly scaled unknowns: x_i -> x_i / s_i
+    x0 = onp.array(draw(st.lists(gen.floats(-1, 1), min_size=n, max_size=n)))
+    db = onp.array(draw(st.lists(gen.floats(-1, 1), min_size=n, max_size=n))) * coef['scale'] * draw(gen.logfloat(-2, 0))
     return {'n': n, 'coef': coef, 'dscale': dscale, 'x0': x0.tolist(), 'db': db.tolist(), 'warm': draw(st.booleans())}
 
 
@@ -241,14 +241,14 @@ def seq_cases(draw):
     nd = len(coef['design'])
     steps = []
     for _ in range(draw(st.integers(2, 4))):
-        db = onp.array(draw(st.lists(st.floats(-1, 1), min_size=n, max_size=n))) * coef['scale'] * draw(gen.logfloat(-2, 0))
+        db = onp.array(draw(st.lists(gen.floats(-1, 1), min_size=n, max_size=n))) * coef['scale'] * draw(gen.logfloat(-2, 0))
         ddmag = draw(st.sampled_from([0.0, 0.05, 0.2]))
-        dd = onp.array(draw(st.lists(st.floats(-1, 1), min_size=nd, max_size=nd))) * ddmag
+        dd = onp.array(draw(st.lists(gen.floats(-1, 1), min_size=nd, max_size=nd))) * ddmag
         A = dd[:n * n].reshape(n, n)
         dd[:n * n] = (0.5 * (A + A.T)).ravel()
         steps.append({'driver': ['nes', 'spg', 'nes'][draw(st.integers(0, 2))], 'db': db.tolist(), 'dd': dd.tolist(),
                       'warm': draw(st.booleans()), 'upd': draw(st.booleans()), 'box': draw(st.booleans())})
-    x0 = onp.array(draw(st.lists(st.floats(-1, 1), min_size=n, max_size=n)))
+    x0 = onp.array(draw(st.lists(gen.floats(-1, 1), min_size=n, max_size=n)))
     return {'n': n, 'coef': coef, 'steps': steps, 'x0': x0.tolist()}
 
 
